@@ -741,6 +741,11 @@ theorem deref_cond {α : Type} (l : List ReqField) (o : Option α)
     simp
   · cases o <;> simp_all
 
+/-- the dispatch of the CURRENT server source: a kind watch iff the `id` field is absent (rests on
+    `Gen.Grpc.watchDispatch`) -/
+theorem servesKind_gen (id : Option String) : genWatchRules.servesKind id = id.isNone := by
+  cases id <;> rfl
+
 /-- the only way a handler panics before it reaches the wrapped state: an unguarded
     `term.Value[0]` on an empty list, or a field read on absent `Options` -/
 theorem srvDecode_no_panic (req : WReq) (h : reqSafe req) : srvDecode req ≠ .early .panic := by
@@ -827,19 +832,19 @@ theorem srvDecode_no_panic (req : WReq) (h : reqSafe req) : srvDecode req ≠ .e
     rw [hcond]
     simp
   | watch ns typ id o api =>
-    simp only [srvDecode]
+    simp only [srvDecode, srvDecodeWatch]
     have hcond : (o.isNone && (Gen.Grpc.derefUnchecked Rpc.watch).contains ReqField.options) = false :=
       deref_cond _ o ho
-    rw [hcond]
+    rw [hcond, servesKind_gen id]
     simp only [Bool.false_eq_true, if_false]
     cases id with
       | some i =>
-        simp only
+        simp only [Option.isNone, Bool.false_eq_true, if_false]
         split
         · simp
         · split <;> simp
       | none =>
-        simp only
+        simp only [Option.isNone, if_true]
         cases o with
         | none => simp [srvQueries, srvIdQuery]
         | some o =>
@@ -1622,6 +1627,181 @@ def exTad (s : RSys) : HRes × HRes × Nat × Nat :=
 
 example : exTad (exSys true false) = (.blocked, .finished .ok, 0, 1) ∧
     exTad (exSys true true) = (.blocked, .finished .ok, 0, 1) := by
+  decide
+
+/-! ### 9. the watch plumbing: dispatch on the id field, announced ApiVersion
+
+`WatchRules` (Cosi.Model.Remote) holds the three decisions about a remote watch that are taken
+outside the wrapped state. `WatchSound` is what transparency needs of them; `genWatchRules_sound`
+says the CURRENT source has it (regenerated facts `watchDispatch`, `cliApiVersion`, `cliIdField`). -/
+
+structure WatchSound (r : WatchRules) : Prop where
+  /-- a kind watch is served exactly when the request carries NO id field -/
+  kind_iff : ∀ id, r.servesKind id = id.isNone
+  /-- every method announces an ApiVersion the server does not filter for -/
+  api : ∀ c, 1 ≤ r.apiVersion c
+  /-- `Watch` puts the target's ID on the wire whatever it is; the kind methods put none -/
+  id_single : ∀ id, r.idField .watch id = some id
+  id_kind : ∀ id, r.idField .watchKind id = none ∧ r.idField .watchKindAggregated id = none
+
+theorem goodWatchRules_sound : WatchSound goodWatchRules :=
+  ⟨fun _ => rfl, fun c => by cases c <;> decide, fun _ => rfl, fun _ => ⟨rfl, rfl⟩⟩
+
+/-- the CURRENT source implements sound watch rules -/
+theorem genWatchRules_sound : WatchSound genWatchRules :=
+  ⟨fun id => by cases id <;> rfl, fun c => by cases c <;> decide, fun _ => rfl, fun _ => ⟨rfl, rfl⟩⟩
+
+theorem mapEvent_api (v : Int) (hv : 1 ≤ v) (e : Event) : mapEvent v e = mapEvent 1 e := by
+  unfold mapEvent
+  have h1 : decide (v < 1) = false := by simp; omega
+  have h2 : decide ((1 : Int) < 1) = false := by decide
+  rw [h1, h2]
+
+/-- under sound rules the subscriber of EVERY watch method is handed something for EVERY event of
+    the server-side watch — the failure event `Errored` and `Bootstrapped` included — namely what
+    `wireEvent` says -/
+theorem wireDeliverWith_sound (r : WatchRules) (hr : WatchSound r) (c : WatchCall) (e : Event) :
+    wireDeliverWith r c e = some (wireEvent e) := by
+  unfold wireDeliverWith wireEvent
+  rw [mapEvent_api _ (hr.api c)]
+  cases hm : mapEvent 1 e with
+  | none =>
+    exfalso
+    unfold mapEvent at hm
+    have h2 : decide ((1 : Int) < 1) = false := by decide
+    rw [h2] at hm
+    simp at hm
+  | some w =>
+    cases hc : cliEvent w <;> simp [hc]
+
+/-- **watch_events_delivered.** Whatever adapter method started the watch — Watch, WatchKind,
+    WatchKindAggregated — each event of the wrapped state's watch reaches the remote subscriber, as
+    that event (`watch_events_equal`); in particular a failure of the server-side watch (`Errored`:
+    the watcher fell behind the history) is never withheld. -/
+theorem watch_events_delivered (c : WatchCall) (e : Event) (h : evWf e) :
+    wireDeliver c e = some (Spec.Remote.wireImage e) := by
+  unfold wireDeliver
+  rw [wireDeliverWith_sound genWatchRules genWatchRules_sound, watch_events_equal e h]
+
+theorem watch_sequences_delivered (c : WatchCall) (evs : List Event) (h : ∀ e ∈ evs, evWf e) :
+    evs.filterMap (wireDeliver c) = evs.map Spec.Remote.wireImage := by
+  induction evs with
+  | nil => rfl
+  | cons e evs ih =>
+    rw [List.filterMap_cons, watch_events_delivered c e (h e (by simp))]
+    simp [ih (fun x hx => h x (by simp [hx]))]
+
+theorem tailOf_nat (n : Nat) : tailOf (n : Int) = n := by
+  unfold tailOf
+  split <;> omega
+
+/-- **A watch is served as requested.** Under sound rules the request the adapter builds for a
+    watch of `kind` — a single-resource watch of ANY id, the empty string included, a kind watch,
+    an aggregated kind watch — is taken apart by the server into a watch of exactly that kind on
+    exactly that id with exactly the caller's options. -/
+theorem watch_served_as_requested (r : WatchRules) (hr : WatchSound r) (ns typ : String) (kind : WKind) (o : StartOpts)
+    (hs : ∀ id, kind = .single id → o.bootstrap = false ∧ o.bootstrapBookmark = false) :
+    ∃ id opts api, watchRequestWith r ns typ kind none o = .watch ns typ id (some opts) api ∧
+      srvDecodeWatch r ns typ id (some opts) = .watch ns typ kind [] none o := by
+  cases kind with
+  | single i =>
+    obtain ⟨h1, h2⟩ := hs i rfl
+    obtain ⟨b, bb, t, bm⟩ := o
+    simp only at h1 h2
+    subst h1 h2
+    refine ⟨some i, { tail := (t : Int), bookmark := bm }, r.apiVersion .watch,
+      by simp [watchRequestWith, hr.id_single], ?_⟩
+    simp [srvDecodeWatch, hr.kind_iff, tailOf_nat]
+  | kind =>
+    refine ⟨none, { bootstrapContents := o.bootstrap, bootstrapBookmark := o.bootstrapBookmark, aggregated := false,
+                    tail := (o.tail : Int), bookmark := o.bookmark }, r.apiVersion .watchKind,
+      by simp [watchRequestWith, callOf, (hr.id_kind "").1], ?_⟩
+    simp [srvDecodeWatch, hr.kind_iff, srvQueries, srvIdQuery, tailOf_nat]
+  | agg =>
+    refine ⟨none, { bootstrapContents := o.bootstrap, bootstrapBookmark := o.bootstrapBookmark, aggregated := true,
+                    tail := (o.tail : Int), bookmark := o.bookmark }, r.apiVersion .watchKindAggregated,
+      by simp [watchRequestWith, callOf, (hr.id_kind "").2], ?_⟩
+    simp [srvDecodeWatch, hr.kind_iff, srvQueries, srvIdQuery, tailOf_nat]
+
+/-- … for the current source text -/
+theorem remote_watch_served_as_requested (ns typ : String) (kind : WKind) (o : StartOpts)
+    (hs : ∀ id, kind = .single id → o.bootstrap = false ∧ o.bootstrapBookmark = false) :
+    srvDecode (watchRequest ns typ kind none o) = .watch ns typ kind [] none o := by
+  obtain ⟨id, opts, api, h1, h2⟩ := watch_served_as_requested genWatchRules genWatchRules_sound ns typ kind o hs
+  unfold watchRequest
+  rw [h1]
+  exact h2
+
+/-- **remote_watch_start_eq_direct.** Starting a watch through adapter and server starts, on the
+    wrapped state, the watch a direct caller would start — same kind, same target, same options —
+    and answers as the direct call does (running / invalid bookmark / other error). -/
+theorem remote_watch_start_eq_direct (s : RSys) (wid now : Nat) (ns typ : String) (kind : WKind) (o : StartOpts)
+    (hs : ∀ id, kind = .single id → o.bootstrap = false ∧ o.bootstrapBookmark = false) :
+    s.startWatch wid now ns typ kind none o =
+      match s.srv.ws.startWatch wid ns typ kind none 1 o with
+      | (ws', none) => ({ s with srv := { s.srv with ws := ws'.settle } }, none, false)
+      | (_, some .invalidBookmark) => (s, some .invalidBookmark, false)
+      | (_, some .other) => (s, some .other, false) := by
+  unfold RSys.startWatch serverHandle
+  rw [remote_watch_served_as_requested ns typ kind o hs]
+  have h1 : watchStartErr (srvStatus .watch .invalidBookmark) = .invalidBookmark := by decide
+  have h2 : watchStartErr (srvStatus .watch .other) = .other := by decide
+  simp only [watchSel, Option.getD]
+  cases hw : s.srv.ws.startWatch wid ns typ kind none 1 o with
+  | mk ws' e =>
+    cases e with
+    | none => rfl
+    | some x => cases x <;> simp [h1, h2]
+
+/-! kernel-checked negative witnesses -/
+
+/-- the dispatch that looks at the VALUE of the id field (`req.GetId() == ""`) -/
+def seededDispatch : WatchRules := { goodWatchRules with servesKind := fun id => id.getD "" == "" }
+
+/-- the client that announces no ApiVersion on single-resource watches -/
+def seededApi : WatchRules := { goodWatchRules with apiVersion := fun c => if c = .watch then 0 else 1 }
+
+def servedKind (c : SCall) : Option WKind :=
+  match c with
+  | .watch _ _ k _ _ _ => some k
+  | _ => none
+
+theorem seededDispatch_unsound : ¬ WatchSound seededDispatch := fun h => by
+  have := h.kind_iff (some "")
+  revert this
+  decide
+
+/-- a single-resource Watch on a pointer with the EMPTY id is served as a kind watch by the seeded
+    dispatch (every other id, and the sound dispatch on every id, serve the single-resource watch) -/
+theorem seeded_dispatch_serves_empty_id_as_kind :
+    servedKind (srvDecodeWatch seededDispatch "n1" "T1" (some "") (some {})) = some .kind ∧
+    servedKind (srvDecodeWatch seededDispatch "n1" "T1" (some "a") (some {})) = some (.single "a") ∧
+    servedKind (srvDecodeWatch goodWatchRules "n1" "T1" (some "") (some {})) = some (.single "") := by
+  decide
+
+/-- … and so the remote caller does not get the initial event of its watch: on an empty store the
+    direct single-resource watch on "" announces one Destroyed tombstone, the kind watch the seeded
+    server starts instead announces nothing -/
+theorem seeded_dispatch_loses_initial_event :
+    let ws : WSys := { cfg := { nsAware := true } }
+    ((ws.startWatch 1 "n1" "T1" (.single "") none 1 {}).1.settle.recv 1).2 =
+      some [{ typ := .destroyed, res := tombstone "n1" "T1" "" }] ∧
+    ((ws.startWatch 1 "n1" "T1" .kind none 1 {}).1.settle.recv 1).2 = none := by
+  decide
+
+theorem seededApi_unsound : ¬ WatchSound seededApi := fun h => by
+  have := h.api .watch
+  revert this
+  decide
+
+/-- without `ApiVersion: 1` in the single-resource WatchRequest the server's overrun `Errored` (and
+    only it: single watches have no Bootstrapped) never reaches the subscriber, while ordinary events
+    and the kind watches are unaffected -/
+theorem seeded_api_withholds_errored :
+    wireDeliverWith seededApi .watch erroredEvent = none ∧
+    wireDeliverWith seededApi .watchKind erroredEvent = some erroredEvent ∧
+    wireDeliverWith goodWatchRules .watch erroredEvent = some erroredEvent ∧
+    (wireDeliverWith seededApi .watch { typ := .created, res := exRes }).isSome = true := by
   decide
 
 end Cosi.C11
